@@ -88,11 +88,16 @@ type vRevClientStream struct { // grpc.BidiStreamingClient[ServerToClient, Clien
 	late       []*tunnelpb.ClientToServer // frames that were already in transit when this side half-closed
 	latePos    int
 	slowPeer   bool // the peer does not hang up at once when this side half-closes (the harness says when)
+	wrapper    *threadSafeOpenReverseTunnelClient
+	sendLocked []bool // was the wrapper's send mutex held when the carrier's send side was used?
 }
 
 func (s *vRevClientStream) Header() (metadata.MD, error) { return s.hdr, s.hdrErr }
 func (s *vRevClientStream) Trailer() metadata.MD         { return nil }
 func (s *vRevClientStream) CloseSend() error {
+	if s.wrapper != nil {
+		s.sendLocked = append(s.sendLocked, verifMutexHeld(&s.wrapper.sendMu))
+	}
 	s.closeSends++
 	if s.closeSends == 1 && s.hold && !s.slowPeer {
 		s.hangUp() // half-closing makes the peer's handler return, which ends Recv
@@ -109,6 +114,9 @@ func (s *vRevClientStream) Context() context.Context { return s.ctx }
 func (s *vRevClientStream) SendMsg(m any) error      { return s.Send(m.(*tunnelpb.ServerToClient)) }
 func (s *vRevClientStream) RecvMsg(m any) error      { return errors.New("not used") }
 func (s *vRevClientStream) Send(m *tunnelpb.ServerToClient) error {
+	if s.wrapper != nil {
+		s.sendLocked = append(s.sendLocked, verifMutexHeld(&s.wrapper.sendMu))
+	}
 	s.sent = append(s.sent, m)
 	return nil
 }
@@ -635,6 +643,15 @@ func verifH_StopInFlight() {
 		served = true
 	})
 	verifDrain() // Serve is now parked in Recv
+	// a gRPC stream's send side (Send, CloseSend) must not be used from two goroutines at once: everything the
+	// server does to the carrier - Stop's CloseSend included - goes through the wrapper that serialises it
+	for k := range srv.instances {
+		w, ok := k.(*threadSafeOpenReverseTunnelClient)
+		verifAssert(ok, "C15.stop-reaches-the-carrier-only-through-its-thread-safe-wrapper")
+		if ok {
+			str.wrapper = w
+		}
+	}
 	graceful := verifBool("gracefulFirst")
 	if graceful {
 		verifGo("graceful", func() { srv.GracefulStop() })
@@ -647,6 +664,9 @@ func verifH_StopInFlight() {
 	verifAssert(started && serveErr == nil, "C04.serve-ends-cleanly-when-stopped")
 	verifAssert(len(hl.calls) == 0, "C10.rpc-arriving-after-stop-is-not-dispatched")
 	verifAssert(str.closeSends >= 1, "C04.stop-half-closes-the-tunnel")
+	for _, l := range str.sendLocked {
+		verifAssert(l, "C15.every-use-of-the-carriers-send-side-under-the-wrappers-send-mutex")
+	}
 	verifAssert(verifWaitGroupCount(&srv.wg) == 0, "C04+C10.stop-wait-group-balanced")
 	verifAssert(!verifMutexHeld(&srv.mu), "C15.reverse-server-mutex-released")
 	verifAssert(verifLiveGoroutines() == 0, "C14.stop-in-flight-no-goroutine-left")
